@@ -260,7 +260,24 @@ fn accepted(o: &ImplOutcome) -> bool {
 // ------------------------------------------------------------------------------------------------
 
 fn single_case(ctx: &mut Ctx, i: usize, max_deg: usize) {
-    let id = format!("C14/single/{}", i);
+    single_case_p(ctx, "C14", i, max_deg)
+}
+
+/// streaming KZG is one of the library's schemes: its single- and multi-point round trips (both provers, both
+/// verifier-key derivations, polynomials that fill the key exactly included) under C01's ids
+pub fn completeness(ctx: &mut Ctx, prop: &str) {
+    for i in 0..ctx.n(14, 40) {
+        single_case_p(ctx, prop, i, 24);
+    }
+    ctx.flush_model(&format!("{}-stream-single", prop));
+    interop(ctx, prop);
+}
+
+fn single_case_p(ctx: &mut Ctx, prop: &str, i: usize, max_deg: usize) {
+    let id = format!("{}/single/{}", prop, i);
+    if !ctx.selected(&id) {
+        return;
+    }
     let mut rng = rng_for(ctx.seed, "C14/single", i as u64);
     // length of the coefficient vector: 0 (empty), 1 (degree 0) … max_deg+1; the first cases sweep
     // the small lengths
